@@ -246,7 +246,7 @@ def run(chk, rng, replay=None):
     chk.coverage.update({
         "evaluations": len(descs) + len(aexp),
         "distinct_nontrivial": len({repr(d) for d in descs if d.get("bounds")}) + len({repr(c[3]) for c in aexp}),
-        "rule": "(i) Interpolation.__init__ on boxes mixing free / one-sided / two-sided / narrower-than-the-radius coordinates with x0 inside, on, outside and at the half-radius / radius distances from the bounds, every admissible nb_points, compared per coordinate with initAxis on Float; (ii) whole minimize runs (general generator plus boxes and curved equality constraints so that second-order-correction steps occur near bounds; scale on/off; fixed variables): every user-visible point checked against the user's bounds, every internal trial point against the internal bounds, build_x compared with Model/Reduce.lean buildX. Non-trivial = bounded problem / distinct axis case.",
+        "rule": "(i) Interpolation.__init__ on boxes mixing free / one-sided / two-sided / narrower-than-the-radius coordinates with x0 inside, on, outside and at the half-radius / radius distances from the bounds, every admissible nb_points, compared per coordinate with initAxis on Float; (ii) whole minimize runs (general generator plus boxes, bounds-only NON-CONVEX objectives - Rosenbrock, product of cosines - in boxes of a few units so that the rotations of the bound-constrained tangential solver are limited by bounds, and curved equality constraints so that second-order-correction steps occur near bounds; scale on/off; fixed variables): every user-visible point checked against the user's bounds, every internal trial point against the internal bounds, build_x compared with Model/Reduce.lean buildX. Non-trivial = bounded problem / distinct axis case.",
         "samples": [descs[-1]] if descs else [aexp[-1][3]],
         "runs": len(descs), "user_visible_points_checked": n_user, "internal_trial_points_checked": n_int,
         "worst_internal_excursion": worst, "build_x_comparisons": n_bx, "axis_comparisons": len(aexp),
